@@ -71,6 +71,15 @@ type dbHarness struct {
 
 	bgErrors []string
 	stat     map[string]int64
+
+	// crash machinery
+	durs       []durPoint
+	known5_1   bool
+	forkMode   string // "", "sample", "all"
+	forkN      int
+	pendingCtx *crashCtx       // context of the crash being recovered from
+	pendSurv   *simfs.Survival // survival spec of the armed main-line crash
+	crashOpen  int             // >0: crash the next incarnation after this many mutations (crash during recovery)
 }
 
 func (h *dbHarness) count(k string, n int64) { h.stat[k] += n }
@@ -94,6 +103,7 @@ func (e *dbEngine) Execute(t *testing.T, plan *Plan, res *Result) {
 	g := &gen{cfg: &h.cfg}
 	g.keyspace()
 	h.pfx, h.sfx = g.pfx, g.sfx
+	h.forkMode, h.forkN = forkPolicy(plan.Profile, plan.Tier)
 	start := time.Now()
 	r := h.sim.Run(&simrt.Inc{ID: 0}, h.root)
 	res.Stats["fake_ns"] = int64(time.Since(start))
@@ -164,10 +174,12 @@ func (h *dbHarness) crashHere() {
 
 func (h *dbHarness) rootKeyAddr() uintptr { return uintptr(0x1000 + h.rootKey) }
 
-func (h *dbHarness) makeOptions() *pebble.Options {
+func (h *dbHarness) makeOptions() *pebble.Options { return h.makeOptionsOn(h.disk) }
+
+func (h *dbHarness) makeOptionsOn(disk *simfs.Disk) *pebble.Options {
 	c := &h.cfg
 	o := &pebble.Options{
-		FS:                          h.disk,
+		FS:                          disk,
 		Comparer:                    kvmodel.Cmp,
 		Logger:                      simLogger{h},
 		MemTableSize:                uint64(c.MemTableSize),
@@ -235,7 +247,7 @@ func (h *dbHarness) makeOptions() *pebble.Options {
 	if !c.DeletePacing {
 		o.DeletionPacing.BaselineRate = nil
 	}
-	h.disk.ShuffleList = c.ShuffleList
+	disk.ShuffleList = c.ShuffleList
 	o.EventListener = h.listener()
 	return o
 }
@@ -284,12 +296,16 @@ func (h *dbHarness) root() {
 	if len(h.plan.Faults) > 0 {
 		h.disk.SetFaults(h.plan.Faults)
 	}
-	for h.pc < len(h.ops) {
+	for {
 		h.segment++
 		inc := &simrt.Inc{ID: h.segment}
 		h.inc = inc
 		h.driverDone = false
 		h.disk.OnCrash = func() { simrt.Wake(h.rootKeyAddr()) }
+		if h.crashOpen > 0 {
+			h.disk.CrashAt = h.crashOpen
+			h.crashOpen = 0
+		}
 		simrt.GoIn("driver", inc, 0, func() {
 			h.drive()
 			h.driverDone = true
@@ -298,11 +314,39 @@ func (h *dbHarness) root() {
 		for !h.driverDone && !inc.Dead {
 			simrt.Block(h.rootKeyAddr())
 		}
-		if !inc.Dead {
-			break
+		crashed := inc.Dead
+		// Freeze the incarnation's tasks (a cleanly finished driver has none
+		// left; a crashed one is dead anyway) and verify crash forks of this
+		// segment's disk history.
+		if h.forkMode != "" && h.pendingCtx == nil {
+			limit := h.disk.LogLen()
+			idx := h.pickForkIndices(h.forkN, h.forkMode == "all")
+			var use []int
+			for _, k := range idx {
+				if k <= limit {
+					use = append(use, k)
+				}
+			}
+			h.runForks(use, h.plan.Tier == "thorough")
+		}
+		if !crashed {
+			return
 		}
 		h.count("crashes", 1)
-		h.afterCrash()
+		// Main-line crash: continue on a crash image of the disk as it is now.
+		if h.pendingCtx == nil {
+			h.pendingCtx = h.crashCtxAt(h.disk.LogLen())
+		}
+		spec := simfs.Survival{Mode: "none"}
+		if h.pendSurv != nil {
+			spec = *h.pendSurv
+		}
+		h.disk = h.disk.CrashImage(spec)
+		h.db = nil
+		if h.pc >= len(h.ops) {
+			// still verify that the image recovers
+			h.ops = append(h.ops, DBOp{K: "scan"})
+		}
 	}
 }
 
@@ -312,11 +356,14 @@ func (h *dbHarness) drive() {
 	h.opts.EnsureDefaults()
 	db, err := pebble.Open("db", h.opts)
 	if err != nil {
+		if h.pendingCtx != nil && !h.inc.FaultFired {
+			Violation("recovery", "Open failed after a crash whose only fault is loss of unsynced data: %v", err)
+		}
 		h.opErr("open", err)
 		return
 	}
 	h.db = db
-	if h.segment > 1 {
+	if h.pendingCtx != nil {
 		h.checkRecovered()
 	}
 	for h.pc < len(h.ops) {
@@ -326,6 +373,25 @@ func (h *dbHarness) drive() {
 		simrt.Progress()
 	}
 	h.closeDB()
+}
+
+// checkRecovered matches the state recovered after a main-line crash and
+// makes it the new baseline.
+func (h *dbHarness) checkRecovered() {
+	c := h.pendingCtx
+	pts, spans, err := readAll(h.db)
+	if err != nil {
+		Violation("recovery", "reading the recovered DB failed: %v", err)
+	}
+	m, desc := h.matchRecovered(c, pts, spans)
+	if m == nil {
+		Violation("recovery", "main-line crash (segment %d): %s", h.segment-1, desc)
+	}
+	h.noteMatch(m, "main-line crash")
+	h.count("img.mainline", 1)
+	h.rebase(m, c.inflight)
+	h.pendingCtx = nil
+	h.pendSurv = nil
 }
 
 func (h *dbHarness) closeDB() {
@@ -348,14 +414,6 @@ func (h *dbHarness) opErr(what string, err error) {
 	Violation("unexpected-error", "%s failed in a fault-free run: %v", what, err)
 }
 
-func (h *dbHarness) afterCrash() {
-	// Placeholder for the main-line crash path: take the image the pending
-	// crash op asked for and continue on it.
-	h.disk = h.disk.CrashImage(simfs.Survival{Mode: "none"})
-}
-
-func (h *dbHarness) checkRecovered() {}
-
 // ---- op execution ----
 
 func (h *dbHarness) exec(op *DBOp) {
@@ -368,9 +426,22 @@ func (h *dbHarness) exec(op *DBOp) {
 	case "excise":
 		h.execExcise(op)
 	case "flush":
+		pos := h.model.Len()
 		if err := h.db.Flush(); err != nil {
 			h.opErr("flush", err)
+		} else {
+			h.durs = append(h.durs, durPoint{pos: pos, ackIdx: h.disk.LogLen(), what: "flush"})
 		}
+	case "crashat":
+		// arm a main-line crash N disk mutations from now
+		h.disk.CrashAt = h.disk.LogLen() + op.N
+		h.pendSurv = op.Surv
+		if op.M > 0 {
+			h.crashOpen = op.M
+		}
+	case "crashnow":
+		h.pendSurv = op.Surv
+		h.crashHere()
 	case "compact":
 		if err := h.db.Compact(context.Background(), []byte(op.Key), []byte(op.End), op.Flag); err != nil {
 			h.opErr("compact", err)
@@ -378,7 +449,11 @@ func (h *dbHarness) exec(op *DBOp) {
 	case "scan":
 		h.checkScan(h.model.Len())
 	case "reopen":
+		pos := h.model.Len()
 		h.closeDB()
+		if !h.cfg.DisableWAL {
+			h.durs = append(h.durs, durPoint{pos: pos, ackIdx: h.disk.LogLen(), what: "close"})
+		}
 		db, err := pebble.Open("db", h.makeOptions())
 		if err != nil {
 			h.opErr("reopen", err)
